@@ -100,6 +100,39 @@ def code_slice_props(s, n):
     return z3.Implies(n >= 0, z3.And(z3.PrefixOf(sl, s), z3.Length(sl) == z3.If(n < z3.Length(s), n, z3.Length(s))))
 
 
+def lcp_prefix(p, k, r):
+    """what the length r of the longest common prefix says about prefix relations"""
+    mn = z3.If(z3.Length(p) < z3.Length(k), z3.Length(p), z3.Length(k))
+    hyp = z3.And(r >= 0, r <= mn, z3.Extract(p, 0, r) == z3.Extract(k, 0, r), z3.Implies(r < mn, p[r] != k[r]))
+    return z3.Implies(hyp, z3.And((r == z3.Length(p)) == z3.PrefixOf(p, k), (r == z3.Length(k)) == z3.PrefixOf(k, p)))
+
+
+def tail_concat(a, b, n):
+    return z3.Implies(z3.And(n >= 0, n <= z3.Length(a)), tail(z3.Concat(a, b), n) == z3.Concat(tail(a, n), b))
+
+
+def nth_concat(a, b):
+    return z3.Implies(z3.Length(a) > 0, z3.Concat(a, b)[0] == a[0])
+
+
+def prefix_concat_left(p, a, b):
+    """p <= a  =>  p <= a ++ b ;   and if p is not a prefix of a but no longer than a, it is no prefix of a ++ b"""
+    return z3.And(z3.Implies(z3.PrefixOf(p, a), z3.PrefixOf(p, z3.Concat(a, b))),
+                  z3.Implies(z3.And(z3.Not(z3.PrefixOf(p, a)), z3.Length(p) <= z3.Length(a)),
+                             z3.Not(z3.PrefixOf(p, z3.Concat(a, b)))))
+
+
+def eq_concat_prefix(a, b, p):
+    """a ++ b == p  =>  a is a prefix of p"""
+    return z3.Implies(z3.Concat(a, b) == p, z3.PrefixOf(a, p))
+
+
+def proper_prefix_blocks(a, b, p):
+    """if a is a proper prefix of p then p is not a prefix of a ++ b unless ...: p <= a ++ b with |a| < |p| needs
+    the rest of p to start b; the only use is: a ++ b == p => a <= p, and  p <= a => |p| <= |a|"""
+    return z3.Implies(z3.PrefixOf(p, a), z3.Length(p) <= z3.Length(a))
+
+
 def code_slice_eq(p, a):
     """a[:len(p)] == p exactly as the interpreter builds it for the Python expression (with slice clamping)"""
     from pyvc import ops
@@ -116,6 +149,9 @@ ALL = {
     "prefix_excl": (prefix_excl, 3), "prefix_trans": (prefix_trans, 3), "eq_cons": (eq_cons, 2), "eq_strip": (eq_strip, 3),
     "prefix_is_slice": (prefix_is_slice, 2), "prefix_is_code_slice": (prefix_is_code_slice, 2),
     "split3": (split3, "si"), "split2": (split2, "si"), "tail_tail": (tail_tail, "sii"),
+    "lcp_prefix": (lcp_prefix, "ssi"), "tail_concat": (tail_concat, "ssi"), "nth_concat": (nth_concat, 2),
+    "prefix_concat_left": (prefix_concat_left, 3), "eq_concat_prefix": (eq_concat_prefix, 3),
+    "proper_prefix_blocks": (proper_prefix_blocks, 3),
     "slice_slice": (slice_slice, "sii"), "prefix_nth": (prefix_nth, "ssi"), "code_slice_props": (code_slice_props, "si"), "prefix_concat": (prefix_concat, 3), "prefix_unit": (prefix_unit, "is"), "eq_concat": (eq_concat, 3),
 }
 
